@@ -228,6 +228,37 @@ func (h *c15Harness) enumerate(step int) *Violation {
 		}
 		w.Stats.State("unit:" + u.label)
 	}
+	// inventory: the statement's units of work must each run as a wrapped item (counted per module, from the state the
+	// hooks started from): one per auction for the auction update and for the limit-bid matching, at least one liquidation
+	// item when positions exist, the incentive and emergency-shutdown hooks as a whole
+	{
+		ctx := w.Ctx()
+		perModule := map[string]int{}
+		for _, u := range ref.units {
+			for _, m := range []string{"liquidationsV2", "auctionsV2", "rewards", "esm", "liquidity"} {
+				if strings.HasPrefix(u.label, "x/"+m+".") || strings.HasPrefix(u.label, "x/"+m+"/") {
+					perModule[m]++
+				}
+			}
+		}
+		nAuctions := len(w.App.NewaucKeeper.GetAuctions(ctx))
+		nVaults := len(w.App.VaultKeeper.GetVaults(ctx))
+		borrows, _ := w.App.LendKeeper.GetBorrows(ctx)
+		want := map[string]int{"auctionsV2": 2 + nAuctions, "rewards": 1, "esm": 1} // the limit-bid matching may see fewer auctions (closed by the update just before)
+		if nVaults > 0 {
+			want["liquidationsV2"]++
+		}
+		if len(borrows) > 0 {
+			want["liquidationsV2"]++
+		}
+		for _, m := range sortedKeys(want) {
+			if perModule[m] < want[m] {
+				return &Violation{Property: "C15", OracleID: "c15.inventory", Signature: "work_item_not_wrapped:" + m,
+					Detail: fmt.Sprintf("height %d: block hooks of %s ran %d atomic work items, at least %d expected (%d auctions, %d vaults, %d borrows)", w.Height(), m, perModule[m], want[m], nAuctions, nVaults, len(borrows))}
+			}
+		}
+		w.Stats.Probe("c15.inventory_checked")
+	}
 	if total == 0 {
 		return nil
 	}
